@@ -583,6 +583,7 @@ def run(idx: ProgramIndex, rep: Report, tier: str, selftest: bool = True):
     check_terms(idx, rep, base, first, second)
     check_solve_triangular(idx, rep, base)
     check_factorwise_maps(idx, rep)
+    check_reflected_delegation(idx, rep, base, first, second)
 
     if selftest:
         from ..selftest import run_fixtures
@@ -955,6 +956,38 @@ def check_factorwise_maps(idx, rep: Report):
                                                   f"{c.name}.{mname} applies `{f_}` to every Kronecker factor, but {f_}(a (x) b) is "
                                                   f"{f_}(a) (x) {f_}(b) only for multiplicative functions (abs, sqrt, inverse, pow ...): "
                                                   f"torch.{mname}(op) disagrees with torch.{mname} of the dense matrix", fn.loc(n)), sample)
+
+
+COMMUTATIVE_FUNCTIONS = {"add", "mul", "eq", "ne", "maximum", "minimum", "equal"}
+
+
+def check_reflected_delegation(idx, rep: Report, base: ClassInfo, first, second):
+    """T8: the handler registered for f(Tensor, Operator) must not hand its operands, unswapped, to the implementation of
+    f(Operator, Tensor) unless f is commutative: torch.isclose(t, op) measures the relative tolerance against op, not t."""
+    rep.rule("C15.T8", "operator-second handlers of non-commutative functions do not delegate unswapped to the operator-first handler", floor=1)
+    for tf, (m2, fn2) in sorted(second.items()):
+        leaf = tf.split(".")[-1]
+        if tf not in first or leaf in COMMUTATIVE_FUNCTIONS:
+            continue
+        m1, fn1 = first[tf]
+        if fn1 is fn2 or len(fn1.params()) < 2 or len(fn2.params()) < 2:
+            continue
+        op1, op2 = fn1.params()[1], fn2.params()[1]
+        forward = {m1}
+        for n in walk_body(fn1):
+            if isinstance(n, ast.Call) and isinstance(n.func, ast.Attribute) and isinstance(n.func.value, ast.Name) and n.func.value.id == "self" \
+                    and n.args and isinstance(n.args[0], ast.Name) and n.args[0].id == op1:
+                forward.add(n.func.attr)
+        bad = [n for n in walk_body(fn2) if isinstance(n, ast.Call) and isinstance(n.func, ast.Attribute) and isinstance(n.func.value, ast.Name)
+               and n.func.value.id == "self" and n.func.attr in forward and n.args and isinstance(n.args[0], ast.Name) and n.args[0].id == op2]
+        sample = {"function": tf, "operator_first": m1, "operator_second": m2, "forward_implementations": sorted(forward)}
+        if bad:
+            rep.bad("C15.T8", Finding(PROP, "C15.T8", f"{base.name}.{m2}", norm(bad[0])[:90],
+                                      f"{base.name}.{m2} handles {tf}(tensor, operator) by calling `{short(bad[0], 60)}`, the implementation of "
+                                      f"{tf}(operator, tensor), with the operands in the same roles: {tf} is not commutative, so the result is "
+                                      f"{tf}(operator, tensor) instead of {tf}(tensor, operator)", fn2.loc(bad[0])), sample)
+        else:
+            rep.ok("C15.T8", sample)
 
 
 def check_terms(idx, rep: Report, base: ClassInfo, first, second):
